@@ -763,6 +763,34 @@ pub fn c20(ctx: &Ctx) -> (CheckMeta, Outcome) {
                     out.violations.push(v("C20", "implied", code.name(), "get_implied_distribution", sym, format!("setting up the implied distribution of {} fails: {}", code.name(), m), json!({"kind": "none"})));
                 }
             }
+            // (3b) the sampler itself can be set up and yields values of the right bracket
+            let r = std::panic::catch_unwind(|| {
+                use rand::SeedableRng;
+                let mut rng = rand::rngs::SmallRng::seed_from_u64(seed ^ 0x5A);
+                let calls = std::sync::atomic::AtomicU64::new(0);
+                let it = sample_implied_distribution(
+                    |x| {
+                        if calls.fetch_add(1, std::sync::atomic::Ordering::Relaxed) > 2_000_000 {
+                            std::panic::panic_any(crate::util::Budget);
+                        }
+                        crate::disp::direct_len(code, x)
+                    },
+                    &mut rng,
+                );
+                it.take(16).collect::<Vec<u64>>()
+            });
+            match r {
+                Ok(vals) => {
+                    if vals.len() != 16 || vals.iter().any(|&x| crate::disp::direct_len(code, x) > 128) {
+                        out.violations.push(v("C20", "implied", code.name(), "sample_implied_distribution", "value", format!("sampler for {} yields {:?}", code.name(), vals), json!({"kind": "none"})));
+                    }
+                }
+                Err(p) => {
+                    let m = crate::util::panic_msg(&p);
+                    let sym = if m.contains("budget") { "hang" } else { "panic" };
+                    out.violations.push(v("C20", "implied", code.name(), "sample_implied_distribution", sym, format!("sampling from the implied distribution of {} cannot be set up: {}", code.name(), m), json!({"kind": "none"})));
+                }
+            }
             out
         }));
     }
@@ -820,7 +848,7 @@ pub fn c20(ctx: &Ctx) -> (CheckMeta, Outcome) {
     let meta = CheckMeta {
         property: "C20".into(),
         level: "exploration".into(),
-        rule: "(1) every library length function (unary, gamma, delta, omega, vbyte, zeta/pi/rice/exp-golomb with parameters 0..=16, 31, 63, golomb 1..=64 and six larger moduli): len(v) <= len(v+1) for all v below 2^20 (thorough 2^21) and within 2^10 of every power of two; Kraft sum of the dense prefix in exact arithmetic (numerator over 2^(2^21)) must not exceed 1; (2) FindChangePoints on each of those functions, driven through a closure with a 200 000-call budget: first item (0, f(0)), strictly increasing, every item a true change point with the new value, none of the true change points of the dense prefix missed, iteration ends; (3) get_implied_distribution terminates for each code and its probabilities are 2^-len x run length; (4) ALL synthetic non-decreasing step functions with at most 3 steps at positions from a 39-point grid (1..9, around 2^7, 2^16, 2^20, 2^31..2^33, 2^47, 2^62, 2^63 +-1, beyond 2^63, 2^64-2), including the constant function: same oracle, every step <= 2^63 must be reported; non-trivial = value at which a length steps / function with at least one step".into(),
+        rule: "(1) every library length function (unary, gamma, delta, omega, vbyte, zeta/pi/rice/exp-golomb with parameters 0..=16, 31, 63, golomb 1..=64 and six larger moduli): len(v) <= len(v+1) for all v below 2^20 (thorough 2^21) and within 2^10 of every power of two; Kraft sum of the dense prefix in exact arithmetic (numerator over 2^(2^21)) must not exceed 1; (2) FindChangePoints on each of those functions, driven through a closure with a 200 000-call budget: first item (0, f(0)), strictly increasing, every item a true change point with the new value, none of the true change points of the dense prefix missed, iteration ends; (3) get_implied_distribution terminates for each code and its probabilities are 2^-len x run length, and sample_implied_distribution can be set up (seeded rng) and yields 16 values whose codewords are at most 128 bits; (4) ALL synthetic non-decreasing step functions with at most 3 steps at positions from a 39-point grid (1..9, around 2^7, 2^16, 2^20, 2^31..2^33, 2^47, 2^62, 2^63 +-1, beyond 2^63, 2^64-2), including the constant function: same oracle, every step <= 2^63 must be reported; non-trivial = value at which a length steps / function with at least one step".into(),
         assumptions: vec!["Kraft terms below 2^-(2^21) are ignored (only possible for unary-like codes beyond the dense prefix)".into()],
     };
     (meta, out)
